@@ -824,12 +824,77 @@ fn dataseg_line(hexsrc: &str) -> String {
   }
 }
 
+// ---------------------------------------------------------------------------------------------
+// multientry: a project with several entry points; every emitted launcher is run
+// ---------------------------------------------------------------------------------------------
+
+/// `multientry <json {"sources": {mod: text}, "entries": [mod, …]}>`: real `compile_sources` with all
+/// entry points at once; answer: JSON {"compile", "msg", "runs": [{"entry", "callee", "wasm", "ts"}]}
+/// where `callee` is the function name the emitted `<entry>.wasm.js` launcher calls.
+fn multientry_line(rest: &str, idx: usize) -> String {
+  let v: serde_json::Value = match serde_json::from_str(rest) {
+    Ok(v) => v,
+    Err(e) => return serde_json::json!({"compile": "bad-input", "msg": e.to_string()}).to_string(),
+  };
+  let sources: Vec<(String, String)> = v["sources"]
+    .as_object()
+    .map(|m| m.iter().map(|(k, t)| (k.clone(), t.as_str().unwrap_or("").to_string())).collect())
+    .unwrap_or_default();
+  let entries: Vec<String> =
+    v["entries"].as_array().map(|a| a.iter().map(|x| x.as_str().unwrap_or("").to_string()).collect()).unwrap_or_default();
+  let (srcs, ents) = (sources.clone(), entries.clone());
+  let r = catch_unwind(move || {
+    let heap = &mut Heap::new();
+    let mut handles = HashMap::new();
+    let mut refs = HashMap::new();
+    for (name, text) in &srcs {
+      let m = heap.alloc_module_reference_from_string_vec(name.split('.').map(|s| s.to_string()).collect());
+      refs.insert(name.clone(), m);
+      handles.insert(m, text.clone());
+    }
+    let entry_refs = ents.iter().map(|e| *refs.get(e).expect("entry among sources")).collect();
+    samlang_compiler::compile_sources(heap, handles, entry_refs, false)
+  });
+  match r {
+    Err(e) => serde_json::json!({"compile": "panic", "msg": panic_msg(&e)}).to_string(),
+    Ok(Err(e)) => serde_json::json!({"compile": "errors", "msg": e}).to_string(),
+    Ok(Ok(res)) => {
+      let files: std::collections::BTreeMap<String, String> =
+        res.text_code_results.iter().filter(|(k, _)| !k.ends_with(".wat")).map(|(k, t)| (k.clone(), t.clone())).collect();
+      let runs = samverif_harness::exec::run_emitted_entries(
+        &files,
+        &res.wasm_file,
+        &entries,
+        &samverif_harness::exec::scratch_dir("c01multi", idx),
+        std::time::Duration::from_millis(10000),
+        true,
+      );
+      let runs: Vec<serde_json::Value> = runs
+        .into_iter()
+        .map(|(e, w, t)| {
+          // `require('./__samlang_loader__.js')(binary).NAME();`
+          let callee = files
+            .get(&format!("{e}.wasm.js"))
+            .and_then(|js| js.rsplit_once("(binary).").map(|(_, r)| r.trim().trim_end_matches("();").to_string()))
+            .unwrap_or_default();
+          serde_json::json!({"entry": e, "callee": callee,
+            "wasm": {"lines": w.lines, "end": w.end}, "ts": {"lines": t.lines, "end": t.end}})
+        })
+        .collect();
+      serde_json::json!({"compile": "ok", "runs": runs}).to_string()
+    }
+  }
+}
+
 fn main() {
   std::panic::set_hook(Box::new(|_| {}));
+  let mut counter = 0usize;
   for_each_line(|line| {
+    counter += 1;
     let (k, rest) = line.split_once(' ').unwrap_or((line, ""));
     match k {
       "lirloop" => lirloop_line(rest),
+      "multientry" => multientry_line(rest, counter),
       "dataseg" => dataseg_line(rest.split_whitespace().next().unwrap_or("-")),
       "layout" => layout_line(rest.split_whitespace().next().unwrap_or("-")),
       "tailrec" | "tailstmt" | "cpe" | "cpesem" | "cpeprog" => pass_line(if k == "tailstmt" { "tailrec" } else { k }, rest),
